@@ -7,7 +7,8 @@
    and the [*_calls] functions (number of integrand evaluations) are the TRANSLATED functions.  A rule is a list of
    (node, weight); [cpeval cs x] = sum_k c_k x^k with complex c_k; [cpint cs a b] its integral over [a,b]
    (C12_poly_integral: it is the Riemann integral).  The statements below hold for ALL intervals, integrands/polynomials,
-   division counts, tolerances and depths they quantify over.  Defects of the unchanged tree are witnessed in Findings/. *)
+   division counts, tolerances and depths they quantify over.  Open defects are witnessed in Findings/ (adaptive Simpson
+   accepting aliased samples); the repaired ones (F5a, F5b, F5c) are kept in Findings/retired/ as historical records. *)
 From Coq Require Import Reals QArith ZArith List Bool.
 From Bignums Require Import BigZ.
 From Coquelicot Require Import Coquelicot.
@@ -234,16 +235,23 @@ Theorem C12_adaptive_cubic_calls : forall (cs : list C) (a b eps : R) d, a <= b 
   (simpson_adaptive_calls Rops (cpeval Rops cs) (fun _ => 1%nat) a b eps d <= 5)%nat.
 Proof. exact simpson_adaptive_cubic_calls. Qed.
 
-(* (reversal of the adaptive method: REFUTED on the pinned tree, for every integrand the result is symmetric in the
-   endpoints — Findings/C12_adaptive_reverse.v: simpson_adaptive_symmetric, C12_adaptive_reverse_refuted) *)
+(* reversal: every integrand, tolerance and depth; either axis in 2-D *)
+Theorem C12_adaptive_reverse : forall (f : R -> C) (a b eps : R) d,
+  simpson_adaptive Rops f b a eps d = Copp (simpson_adaptive Rops f a b eps d).
+Proof. exact simpson_adaptive_reverse. Qed.
 
-(* ---- accepted parameters.  "accepted in 1-D => accepted in 2-D" is proved on the even class; it fails on every odd
-   divs >= 5, and the 1-D form rejects divs = 4 (Findings/C12_accept.v).  Every divs >= 5 is accepted in 1-D. *)
-Theorem C12_accept_1d_from5 : forall d, (5 <= d)%Z -> simpson_accepts d = true.
-Proof. exact simpson_accepts_from5. Qed.
+Theorem C12_adaptive_2d_reverse : forall (f : R -> R -> C) (ax bx ay by_ eps : R) d,
+  simpson_adaptive_2d Rops f bx ax ay by_ eps d = Copp (simpson_adaptive_2d Rops f ax bx ay by_ eps d) /\
+  simpson_adaptive_2d Rops f ax bx by_ ay eps d = Copp (simpson_adaptive_2d Rops f ax bx ay by_ eps d).
+Proof. exact simpson_adaptive_2d_reverse. Qed.
 
-Theorem C12_accept_even : forall d, Z.even d = true -> simpson_accepts d = true -> simpson2d_accepts d = true.
-Proof. exact accept_1d_2d_even. Qed.
+(* ---- accepted parameters: every divs >= 4 (in particular the property's range 4..400) is accepted by both forms, and
+   whatever the 1-D form accepts the 2-D form accepts — for ALL divs, no parity hypothesis *)
+Theorem C12_accept_from4 : forall d, (4 <= d)%Z -> simpson_accepts d = true /\ simpson2d_accepts d = true.
+Proof. exact accept_from4. Qed.
+
+Theorem C12_accept_1d_2d : forall d, simpson_accepts d = true -> simpson2d_accepts d = true.
+Proof. exact accept_1d_2d. Qed.
 
 (* accepted parameters give an even number of divisions >= 2 in both forms *)
 Theorem C12_accept_norm : forall d,
@@ -254,7 +262,7 @@ Proof. exact accept_norm. Qed.
 (* ---- non-vacuity of the hypotheses used above *)
 Example C12_ex_accepts_default : simpson_accepts default_simpson_divs = true /\ simpson2d_accepts default_simpson_divs = true.
 Proof. exact (conj eq_refl eq_refl). Qed.
-Example C12_ex_even : Z.even 48 = true /\ simpson_accepts 51 = true /\ simpson2d_accepts 4 = true.
+Example C12_ex_even : Z.even 48 = true /\ simpson_accepts 4 = true /\ simpson2d_accepts 5 = true.
 Proof. exact (conj eq_refl (conj eq_refl eq_refl)). Qed.
 Example C12_ex_cert : cert_check_big 0 0 1 0 1 (BigZ.zero :: nil) (BigZ.two :: nil) = true.
 Proof. exact cert_example. Qed.
@@ -301,6 +309,8 @@ Print Assumptions C12_adaptive_step.
 Print Assumptions C12_adaptive_terminates.
 Print Assumptions C12_adaptive_2d_terminates.
 Print Assumptions C12_adaptive_cubic_calls.
-Print Assumptions C12_accept_1d_from5.
+Print Assumptions C12_adaptive_reverse.
+Print Assumptions C12_adaptive_2d_reverse.
+Print Assumptions C12_accept_from4.
+Print Assumptions C12_accept_1d_2d.
 Print Assumptions C12_accept_norm.
-Print Assumptions C12_accept_even.
